@@ -59,8 +59,11 @@ def gen(tape, big=False):
             ev["test_status"] = tape.weighted("program", [(3, None), (3, "inprogress"), (2, "success"), (2, "fail"), (1, "skip"),
                                                           (1, "xfail"), (1, "uxsuccess"), (1, "exists")], "status")
             if tape.chance("program", 1, 3, "file"):
-                ev["file_name"] = tape.choice("program", ("f", "g"), "file-name")
+                # ("reason" and "traceback" are names the summaries give a meaning to)
+                ev["file_name"] = tape.choice("program", ("f", "g", "f", "g", "reason", "traceback"), "file-name")
                 ev["file_bytes"] = b"" if tape.chance("payload", 1, 4, "empty-chunk") else b"<%d>" % k[0]
+                if ev["file_bytes"] and tape.chance("payload", 1, 12, "stray-bytes"):
+                    ev["file_bytes"] = b"\xff\xfe<%d>" % k[0]      # does not decode as utf8 text
                 ev["eof"] = tape.chance("program", 1, 3, "eof")
                 ev["mime_type"] = tape.choice("program", MIMES, "mime")
             if tape.chance("program", 1, 3, "tags"):
@@ -362,7 +365,7 @@ def _finish(out, tape, scripts, merged, decisions, cut, opts, dict_reports):
     out.hhash = digest_of([(ev.get("test_id"), ev.get("route_code"), ev.get("test_status"), ev.get("file_name") is not None) for ev in merged], cut)
     out.nontrivial = len(set(decisions)) >= 2 and finals >= 1
     if opts.get("want_sample"):
-        out.sample = {"worker_scripts": [[{k: (v.decode() if isinstance(v, bytes) else v) for k, v in ev.items()} for ev in s] for s in scripts],
+        out.sample = {"worker_scripts": [[{k: (v.decode("latin-1") if isinstance(v, bytes) else v) for k, v in ev.items()} for ev in s] for s in scripts],
                       "merge_decisions": decisions, "cut_at": cut,
                       "dict_reports": [(d["id"], d["status"]) for d in dict_reports]}
     return out
